@@ -147,7 +147,7 @@ def run(tier):
                     "index = one or two index-addressed operations (sections x kinds x in/out-of-range and negative "
                     "indices x numeric/text/negative/absent values) on a schema with var/uint/str/ts/VCS/custom "
                     "components x by-name combinations; vcs = distance/dirty/no-dirty/clean/branch/timestamp/"
-                    "context-control flags x 8 presets x start versions; order = 4 precedence orders x bump subsets x index "
+                    "context-control flags x 8 presets x start versions; order = 6 precedence orders (incl. the empty one) x bump subsets x index "
                     "operations; tmpl = {{ major }} / {{ minor }} / {{ patch }} / {{ distance }} / {{ post }} as flag values. "
                     "Each runs under two flag permutations. "
                     "non-trivial = the result differs from the start version. Trace: %d random runs."
